@@ -80,6 +80,9 @@ MENU = {
     "bil": ("filter", {"filter_method": "bilateral"}),  # sigma omitted: default 6.0
     "mfi3": ("filter", {"filter_method": "median_for_intervals", "filter_size": 3}),
     "mfi5": ("filter", {"filter_method": "median_for_intervals", "filter_size": 5}),
+    # regularisation parameters do not enter the documented margin (filter_size on the four sides)
+    "mfi3r": ("filter", {"filter_method": "median_for_intervals", "filter_size": 3, "regularization": True,
+                         "vertical_depth": 5}),
     "vfit": ("refinement", {"refinement_method": "vfit"}),
     "quad": ("refinement", {"refinement_method": "quadratic"}),
     "cross": ("validation", {"validation_method": "cross_checking_accurate"}),
@@ -87,9 +90,9 @@ MENU = {
 }
 MENUS = {
     "quick": {"mc": ["sad1", "sad3", "sad5", "sad7", "ssd"], "cv": ["cbca", "opt", "optgp", "optsegm", "amb"],
-              "dm": ["med1", "med3", "med5", "bil0.5", "bil1", "bil6", "bil", "mfi3", "vfit", "cross", "ms"]},
+              "dm": ["med1", "med3", "med5", "bil0.5", "bil1", "bil6", "bil", "mfi3", "mfi3r", "vfit", "cross", "ms"]},
     "full": {"mc": ["sad1", "sad3", "sad5", "sad7", "ssd", "census3", "zncc9"], "cv": ["cbca", "opt", "optgp", "optsegm", "optcls", "std", "amb"],
-             "dm": ["med1", "med3", "med5", "med", "bil0.5", "bil1", "bil6", "bil", "mfi3", "vfit", "quad", "cross",
+             "dm": ["med1", "med3", "med5", "med", "bil0.5", "bil1", "bil6", "bil", "mfi3", "mfi3r", "vfit", "quad", "cross",
                     "ms"]},
     "reduced": {"mc": ["sad3", "sad7"], "cv": ["cbca", "opt"], "dm": ["med3", "bil1", "vfit", "cross", "ms"]},
 }
